@@ -966,11 +966,12 @@ class PureScheduler:                                    # pylint: disable=r0902
         except asyncio.CancelledError:
             # we are being cancelled from the outside, typically because
             # we are nested in a scheduler that is aborting: our own jobs
-            # must not be left behind, and they need to be shut down
+            # must not be left behind; their shutdown is left to the
+            # co_shutdown() broadcast of that enclosing scheduler, so that
+            # it is bounded by its shutdown_timeout and not by ours
             await self._tidy_tasks(
                 {job._task for job in self.jobs
                  if job._task is not None and not job._task.done()})
-            await self.co_shutdown()
             raise
 
     async def _co_run(self):                      # pylint: disable=R0912,R0915
